@@ -760,10 +760,23 @@ fn make_wide(d: &mut Dec, ctx: &mut Ctx) -> Value {
         } else if op == Op::Div && d.chance(70) {
             // the quotient is never used: the division still has to happen (it may fail)
             labels.push("form:discarded-quotient".into());
-            if d.bool() {
-                body.push_str(&format!("    let _ = {expr};\n"));
-            } else {
-                body.push_str(&format!("    let unused{i}: {t} = {expr};\n"));
+            match d.below(6) {
+                0 | 1 => body.push_str(&format!("    let _ = {expr};\n")),
+                2 => body.push_str(&format!("    let unused{i}: {t} = {expr};\n")),
+                // the quotient is the value of a branch of an if / a match arm / a block used
+                // as an expression statement (discarded without a let)
+                3 => {
+                    labels.push("form:discarded-in-branch".into());
+                    body.push_str(&format!("    if true {{\n        {expr}\n    }} else {{\n        {la}\n    }};\n"));
+                }
+                4 => {
+                    labels.push("form:discarded-in-branch".into());
+                    body.push_str(&format!("    match 1 {{\n        1 => {expr},\n        _ => {la},\n    }};\n"));
+                }
+                _ => {
+                    labels.push("form:discarded-in-branch".into());
+                    body.push_str(&format!("    let _ = if false {{\n        {la}\n    }} else {{\n        let q{i} = {expr};\n        q{i}\n    }};\n"));
+                }
             }
             if !matches!(r, R::DivZero) {
                 continue;
